@@ -85,13 +85,9 @@ void harness(void) {
     __CPROVER_assume(__CPROVER_forall { size_t p; (p <= CMP_KOBJ) ==> (p > h_klen || (g_ck[p] <= p && g_ck[p] <= g_ck[h_klen])) });
     __CPROVER_assume(__CPROVER_forall { size_t p; (p <= CMP_EOBJ) ==> (p > h_elen || (g_ce[p] <= p && g_ce[p] <= g_ce[h_elen])) });
     /* A2: the c-th base byte is stripped[c] ; A3: stripped string ends after the last base byte */
-#ifndef POSRULE
     __CPROVER_assume(__CPROVER_forall { size_t p; (p < CMP_KOBJ) ==> (p >= h_klen || !BASE(key[p]) || g_ck[p] >= CMP_EOBJ || g_sk[g_ck[p]] == key[p]) });
-#endif
     __CPROVER_assume(__CPROVER_forall { size_t p; (p < CMP_EOBJ) ==> (p >= h_elen || !BASE(elm[p]) || g_se[g_ce[p]] == elm[p]) });
-#ifndef POSRULE
     __CPROVER_assume(g_ck[h_klen] >= CMP_EOBJ || g_sk[g_ck[h_klen]] == '\0');
-#endif
     __CPROVER_assume(g_se[g_ce[h_elen]] == '\0');
 #endif
     h_key = key; h_elm = elm;
@@ -116,15 +112,8 @@ void harness(void) {
     size_t c = g_ck[dk];
     __CPROVER_assert(c == g_ce[de], "cmp: both cursors have consumed the same number of base letters");
     __CPROVER_assert(c <= NKs && c <= NEs, "cmp: stop position inside both stripped strings");
-#ifdef POSRULE
-    /* position-based statement: only the element is stripped into a rank-indexed array */
-    __CPROVER_assert(!((unsigned char)key[dk] & 0x80), "cmp: the key cursor stops on a base letter or the terminator");
-    __CPROVER_assert(r == (key[dk] > g_se[c]) - (key[dk] < g_se[c]), "cmp: result is the order of the key's next base letter (or end) and the element's base letter of the same rank (or end)");
-    _Bool is_prefix = NKs <= NEs && __CPROVER_forall { size_t p; (p < CMP_KOBJ) ==> (p >= h_klen || !BASE(key[p]) || ((size_t)g_ck[p] < NEs && key[p] == g_se[g_ck[p]])) };
-#else
     __CPROVER_assert(r == (g_sk[c] > g_se[c]) - (g_sk[c] < g_se[c]), "cmp: result is the order of the stripped strings at the stop position");
     _Bool is_prefix = NKs <= NEs && __CPROVER_forall { size_t k; (k < CMP_EOBJ) ==> (k >= NKs || g_sk[k] == g_se[k]) };
-#endif
 #else
     /* no stripping: the stripped strings are the strings themselves */
     size_t NKs = h_klen, NEs = h_elen;
